@@ -190,11 +190,29 @@ func c13PVSS(t *rapid.T, ev *evProp) {
 		if err := pvss.VerifyEncShare(suite, H.P, X[i], sH[i], gc, e2[i]); err == nil {
 			violationOrKnown(t, ev, key("enc-mutation-accepted"), "encrypted share %d with altered %s verifies\n%s", i, f, ctx)
 		}
-		_, E2, _ := pvss.VerifyEncShareBatch(suite, H.P, X, sH, pub, e2)
+		K2, E2, berr := pvss.VerifyEncShareBatch(suite, H.P, X, sH, pub, e2)
 		for _, e := range E2 {
 			if e == e2[i] {
 				violationOrKnown(t, ev, key("enc-mutation-in-batch"), "altered (%s) encrypted share %d is in the batch result\n%s", f, i, ctx)
 			}
+		}
+		// exactly the right survivors: the response and the challenge of a proof concern that share
+		// alone, so the other n-1 shares (with their keys, aligned, in order) stay; the share value and
+		// the proof commitments enter the global challenge, so nothing verifies any more
+		if f == "P.C" || f == "P.R" {
+			ok := berr == nil && len(E2) == n-1 && len(K2) == n-1
+			for k, q := 0, 0; ok && k < n; k++ {
+				if k == i {
+					continue
+				}
+				ok = E2[q] == e2[k] && K2[q].Equal(X[k])
+				q++
+			}
+			if !ok {
+				violationOrKnown(t, ev, key("batch-drops-correct-shares"), "with only %s of share %d altered the batch returns %d shares / %d keys, err=%v (expected the other %d, aligned)\n%s", f, i, len(E2), len(K2), berr, n-1, ctx)
+			}
+		} else if len(E2) != 0 {
+			violationOrKnown(t, ev, key("enc-mutation-in-batch"), "%d shares verify although %s of share %d (an input of the global challenge) was altered\n%s", len(E2), f, i, ctx)
 		}
 		if _, err := pvss.DecShare(suite, H.P, X[i], sH[i], x[i], gc, e2[i]); err == nil {
 			violationOrKnown(t, ev, key("enc-mutation-decrypted"), "DecShare accepts the altered (%s) encrypted share %d\n%s", f, i, ctx)
@@ -351,7 +369,7 @@ func c13DLEQ(t *rapid.T, ev *evProp) {
 const c13Rule = "two generated families over Ed25519 and P-256. (PVSS) n in 2..10 trustees, 1<=t<=n, secret from edge scalar classes incl. 0, base H from the point generator (non-identity), trustee keys from a seeded stream: all encrypted shares verify singly and in the batch, every DecShare succeeds, verifies and equals x^-1*encshare; RecoverSecret from a random subset of valid decrypted shares in a random order (the others altered in one field) returns secret*G iff >= t are valid, else errors; " +
 	"then one mutation from {one field S.V/P.C/P.R/P.VG/P.VH of an encrypted or decrypted share, another trustee's encrypted/decrypted share, another trustee's key, the commitment of another index, one altered polynomial coefficient, another H, another global challenge}, applied only when the value really differs, must fail single verification, be absent from the batch results and be refused by DecShare. " +
 	"(DLEQ) non-identity G,H, non-zero x: the proof verifies for (xG,xH); changing C, R, VG, VH, xG, xH, G, H or swapping G and H makes it fail. non-trivial = every PVSS case (each carries a negative check) and every DLEQ case whose mutation applies; distinct = distinct rendered case" +
-	" Added after the sensitivity rounds: after RecoverSecret the caller's triples still verify and a repeat agrees; VerifyEncShareBatch with disagreeing polynomial / per-trustee commitments; TestC13_Batch: several dealers, DecShareBatch with tampered entries vs DecShare, caller slices preserved."
+	" Added after the sensitivity rounds: after RecoverSecret the caller's triples still verify and a repeat agrees; VerifyEncShareBatch with disagreeing polynomial / per-trustee commitments; exact survivor set of VerifyEncShareBatch when one share's P.C / P.R is altered; TestC13_Batch: several dealers, DecShareBatch with tampered entries vs DecShare, caller slices preserved."
 
 func TestC13_PVSS(t *testing.T) {
 	ev := evFor("C13")
